@@ -44,7 +44,25 @@ def enumerate_cases(tier):
 
 
 def fixed_cases():
+    yield from _more_fixed()
     yield {'v': ['dict', [[['int', 0], ['sub', 'str', 'plain', ['str', 'abcdefghij']]]]], 'cfgs': [[14, 14, 4], [79, 71, 4], [1, 1, 1]]}   # D2
+
+
+def _more_fixed():
+    long = 'a comment long enough to be put above the value it belongs to'
+    inner = ['dict', [[['str', 'a'], ['list', [['int', 1], ['list', [['int', 2]]]]]]]]
+    # a one-element tuple whose element carries a comment; strings with a backslash before an apostrophe next to double quotes
+    for v in (['tuple', [['cmt', long, ['int', 1]]]], ['list', [['tuple', [['cmt', long, ['str', 'x']]]], ['int', 0]]],
+              ['tuple', [['tcmt', 'short', ['list', [['int', 1]]]]]]):
+        yield {'v': v, 'cfgs': [[1, 1, 1], [10, 10, 2], [30, 30, 4], [79, 71, 4], [200, 200, 8]], 'opts': {}}
+    for text in ('a "b" c\\\'d "e" f\\\'g h "i" and on and on', 'say "hi" \\\' and "bye" \\\' then stop here', "it's a \"q\" \\' mix of all three kinds"):
+        for v in (['list', [['str', text]]], ['dict', [[['str', text], ['bytes', text.encode().hex()]]]], ['call', 'box', [], [['a', ['str', text]]]]):
+            yield {'v': v, 'cfgs': [[w, w, 2] for w in (1, 8, 12, 16, 20, 26, 34, 200)], 'opts': {}}
+    for v in (['dict', [[['str', 'k'], ['cmt', long, inner]]]], ['list', [['dict', [[['str', 'k'], ['cmt', long, inner]], [['str', 'z'], ['int', 0]]]]]],
+              ['dict', [[['str', 'k'], ['cmt', 'c', ['call', 'box', [['list', [['int', 1]]]], [['a', ['cmt', long, ['int', 2]]]]]]]]]):
+        for d in (1, 2, 3, None):
+            yield {'v': v, 'cfgs': [[1, 1, 1], [20, 20, 2], [40, 30, 4], [79, 71, 4], [200, 200, 8]], 'opts': {'depth': d}}
+            yield {'v': v, 'cfgs': [[12, 12, 4], [200, 200, 4]], 'opts': {'depth': d, 'max_seq_len': 1}}
 
 
 def strategy(tier):
